@@ -149,6 +149,7 @@ func runC14(r *Run, verifDir string) {
 	c14G4(r)
 	c14G5(r)
 	c14G6(r)
+	c14G7(r)
 }
 
 // ---------------------------------------------------------------- G1
@@ -963,5 +964,57 @@ func c14G6(r *Run) {
 	}
 	if n == 0 {
 		r.Unk("C14.G6", "assertions", token.NoPos, "no structural assertion on a transported object found")
+	}
+}
+
+// c14G7: the RSA accessor refuses a transparent private key only for parts crypto/rsa cannot do without (modulus,
+// public and private exponent). The primes and the three CRT values are optional in KMIP (2.1.7.4) and for Go:
+// rsa.PrivateKey.Precompute recomputes Dp, Dq and Qinv and tolerates absent primes, so a key registered from an
+// rsa.PrivateKey that was never precomputed — or stored by a server that keeps only (N, E, D) — extracts fine. No
+// error return of the accessor is controlled by the absence of one of those optional parts.
+func c14G7(r *Run) {
+	p := r.P
+	r.Rule("C14.G7", "PrivateKey.RSA rejects a transparent key only for a missing mandatory part (not for absent primes or CRT values)", 1)
+	fn := p.Func("", "PrivateKey", "RSA")
+	key := "kmip.PrivateKey.RSA/optional-parts"
+	if fn == nil {
+		r.Unk("C14.G7", key, token.NoPos, "anchor missing")
+		return
+	}
+	optional := map[string]bool{"P": true, "Q": true, "PrimeExponentP": true, "PrimeExponentQ": true, "CRTCoefficient": true}
+	bad, what := token.NoPos, ""
+	for _, b := range fn.Blocks {
+		ret, ok := b.Instrs[len(b.Instrs)-1].(*ssa.Return)
+		if !ok || len(ret.Results) != 2 || isNilConst(ret.Results[1]) {
+			continue
+		}
+		if _, isCall := ret.Results[1].(*ssa.Call); !isCall {
+			if _, isMI := ret.Results[1].(*ssa.MakeInterface); !isMI {
+				continue
+			}
+		}
+		// the tests that lead straight into this return (an `a == nil || b == nil` chain reaches it from several blocks)
+		for _, pr := range b.Preds {
+			cond, isTrue, ok := edgeTaken(pr, b)
+			if !ok {
+				continue
+			}
+			bo, ok := cond.(*ssa.BinOp)
+			if !ok || !isNilConst(bo.Y) || (bo.Op == token.EQL) != isTrue || (bo.Op != token.EQL && bo.Op != token.NEQ) {
+				continue
+			}
+			if ld, ok := bo.X.(*ssa.UnOp); ok && ld.Op == token.MUL {
+				if fa, ok := ld.X.(*ssa.FieldAddr); ok {
+					if _, fld, ok := fieldAddrOf(ld.X); ok && optional[fname(fld)] && typeName(fa.X.Type()) == "TransparentRSAPrivateKey" {
+						bad, what = ret.Pos(), fname(fld)
+					}
+				}
+			}
+		}
+	}
+	if bad.IsValid() {
+		r.Bad("C14.G7", key, bad, "PrivateKey.RSA returns an error when the optional part %s of a transparent RSA private key is absent: a valid key made of modulus and exponents only (an rsa.PrivateKey never precomputed, or a server that stores just N, E, D) is registered and transported but can no longer be extracted", what)
+	} else {
+		r.OK("C14.G7", key, fn.Pos(), "no error return is controlled by the absence of P, Q, PrimeExponentP, PrimeExponentQ or CRTCoefficient")
 	}
 }
